@@ -88,6 +88,11 @@ def rand_insertions(rng, v, malformed_p=0.12):
             # kwargs.negative lists ONLY ids that are not valid elements (deleted categories,
             # categories flagged missing, a valid id written as a string): nothing is subtracted
             neg = phantom_negative(rng, valid, missing)
+        if neg and any(x in valid for x in neg) and rng.random() < 0.18:
+            # the mirror image (seeded change C04-5): kwargs.positive lists ONLY ids that are not valid
+            # elements while the negative ids exist - the insertion is kept, nothing is added and the
+            # subtrahends are subtracted (count = 0 - sum of the subtrahends)
+            pos = phantom_negative(rng, valid, missing)
         r = rng.random()
         if r < 0.2:
             anchor = "top"
